@@ -9,6 +9,7 @@ pub mod decode;
 pub mod flow;
 pub mod exc;
 pub mod charge;
+pub mod tables;
 
 use crate::hv::e1::Case;
 use crate::hv::known::Known;
@@ -24,6 +25,8 @@ pub fn build(id: &str, tier: Tier, seed: u64, known: &[Known]) -> Option<Prop> {
         "C07" => decode::c07(tier, seed),
         "C08" => ea::c08(tier, seed),
         "C03" => alu::c03(tier, seed),
+        "C09" => tables::c09(tier, seed),
+        "C19" => tables::c19(tier, seed),
         "C20" => charge::c20(tier, seed),
         _ => return None,
     };
@@ -49,6 +52,24 @@ pub const ALL: &[&str] = &["C01", "C02", "C03", "C04", "C05", "C06", "C07", "C08
 
 /// Replay of counterexamples produced by engines other than E1.
 pub fn replay_other(prop: &str, doc: &serde_json::Value, path: &std::path::PathBuf) -> i32 {
-    println!("no replay handler for engine {:?} (property {})", doc["engine"], prop);
-    2
+    let v = &doc["violation"];
+    let mut ctx = crate::hv::e1::Ctx::new();
+    ctx.unit = "replay".into();
+    println!("case:     {}", v["case"]);
+    println!("recorded: {}", v["what"]);
+    let ok = match doc["engine"].as_str() {
+        Some("c19") => tables::replay_c19(&mut ctx, &v["case"]),
+        Some("c09") => tables::replay_c09(&mut ctx, &v["case"]),
+        other => {
+            println!("no replay handler for engine {:?} (property {})", other, prop);
+            return 2;
+        }
+    };
+    if ok {
+        println!("the case passes on the current tree");
+        0
+    } else {
+        println!("VIOLATION property={} replay={}", prop, path.display());
+        1
+    }
 }
